@@ -6,7 +6,6 @@ V = os.path.dirname(os.path.dirname(os.path.abspath(__file__)))
 NA = {
     'C01': "byte-exact round trip over all lengths x ten configuration dimensions is a runtime-value fact (cipher/compressor/buffer arithmetic); no structural necessary condition beyond what C17/C03/C09 already decide; static analysis cannot bound it (DESIGN §5 C01)",
     'C06': "agreement of sign-side and verify-side canonicalisers on every payload is equivalence of byte-transducer loops; needs execution or symbolic evaluation, which this technique family excludes; the structural cleartext sign/verify-form clause is decided under C16 (DESIGN §5 C06)",
-    'C12': "numerical equality of composed primitives with RFC 9580 (HKDF info, nonce layout, S2K rounds, key wrap) is value-level; encryptor and decryptor share one derivation so there is no sibling to cross-check (DESIGN §5 C12)",
     'C14': "equality of three canonicalisers' outputs for all strings x chunkings is a value-level statement about loops with carry state; no refactor-stable structural clause exists (DESIGN §5 C14)",
 }
 
@@ -20,6 +19,7 @@ CLAIMS = {
     'C09': ("R-err (no I/O error dropped) + R-pair (buffered tails finished explicitly) + error-state table", "§5 C09"),
     'C10': ("R-lost (CRC accumulated in place), R-dom (CRC compared), generic-arg check (64 column writer), R-pair", "§5 C10"),
     'C11': ("R-seq/R-table: framing constants, length widths and feed order equal the RFC 9580 §5.2.4 template; sign/verify twins agree", "§5 C11"),
+    'C12': ("R-table/R-seq/R-who (narrow): KDF and AEAD input constants, field order and single derivation equal the RFC 9580 templates; byte streams themselves not decided", "§5 C12 / §11.7"),
     'C13': ("R-who (single fingerprint implementation + pure forwarders), R-table (RFC framing constants), origin of embedded ids", "§5 C13"),
     'C15': ("R-dom/R-sib/R-table over MIR: each acceptance rule is a guard on every path of every parallel implementation", "§5 C15"),
     'C16': ("R-sib/R-who/R-dom: signer and verifier hash the same derived form; only escaped text is representable; header validation on parse", "§5 C16"),
